@@ -95,6 +95,7 @@ type c09Case struct {
 	Msgs      []c09Msg
 	HandlerAt []int // levels at which messages are sent (derived)
 	Unknown   bool  // unknown-call / unknown-push handlers are set (with their own plugins, "handler-1"); messages of level -1 go to unregistered routes
+	Removed   []string // global plugins taken out again with PluginContainer().Remove before the traffic starts
 }
 
 type c09Msg struct {
@@ -126,10 +127,10 @@ func genC09(t *rapid.T, protos []vt.NamedProto) c09Case {
 		}
 		return p
 	}
-	for i, n := 0, rapid.IntRange(0, 2).Draw(t, "ngl"); i < n; i++ {
+	for i, n := 0, rapid.IntRange(0, 4).Draw(t, "ngl"); i < n; i++ {
 		c.SrvPlugs = append(c.SrvPlugs, mk("gl"))
 	}
-	for i, n := 0, rapid.IntRange(0, 2).Draw(t, "ngr"); i < n; i++ {
+	for i, n := 0, rapid.IntRange(0, 4).Draw(t, "ngr"); i < n; i++ {
 		c.SrvPlugs = append(c.SrvPlugs, mk("gr"))
 	}
 	for lvl := 1; lvl <= c.Depth; lvl++ {
@@ -157,6 +158,14 @@ func genC09(t *rapid.T, protos []vt.NamedProto) c09Case {
 			p.Where = "gr"
 		}
 		c.SrvPlugs = append(c.SrvPlugs, p)
+	}
+	// some global plugins are removed again before the traffic starts
+	if rapid.IntRange(0, 2).Draw(t, "removes") == 0 {
+		for _, p := range c.SrvPlugs {
+			if (p.Where == "gl" || p.Where == "gr") && rapid.IntRange(0, 2).Draw(t, "remove-"+p.Name) == 0 {
+				c.Removed = append(c.Removed, p.Name)
+			}
+		}
 	}
 	for i, n := 0, rapid.IntRange(0, 2).Draw(t, "ncli"); i < n; i++ {
 		c.CliPlugs = append(c.CliPlugs, mk("gl"))
@@ -218,11 +227,21 @@ func (c c09Case) chain(level int, global bool) []plugSpec {
 			}
 		}
 	}
-	out := append([]plugSpec{}, lateLeft...)
-	out = append(out, left...)
-	out = append(out, middle...)
-	out = append(out, right...)
-	out = append(out, lateRight...)
+	all := append([]plugSpec{}, lateLeft...)
+	all = append(all, left...)
+	all = append(all, middle...)
+	all = append(all, right...)
+	all = append(all, lateRight...)
+	out := all[:0]
+	for _, p := range all {
+		gone := false
+		for _, r := range c.Removed {
+			gone = gone || r == p.Name
+		}
+		if !gone {
+			out = append(out, p)
+		}
+	}
 	return out
 }
 
@@ -444,6 +463,11 @@ func runC09(c c09Case, protos []vt.NamedProto) []string {
 			srv.PluginContainer().AppendRight(mkRec(p, srvLog))
 		}
 	}
+	for _, name := range c.Removed {
+		if err := srv.PluginContainer().Remove(name); err != nil {
+			return []string{fmt.Sprintf("Remove(%s) of a registered global plugin failed: %v", name, err)}
+		}
+	}
 	var cgl []erpc.Plugin
 	for _, p := range c.CliPlugs {
 		cgl = append(cgl, mkRec(p, cliLog))
@@ -518,7 +542,7 @@ func (c c09Case) nontrivial() bool {
 	return veto || late && c.Depth >= 1
 }
 
-const ruleC09 = "generated plugin arrangement on the receiving peer (0-2 global-left, 0-2 global-right, a chain of 0-3 nested router groups with 0-2 plugins each, 0-1 handler-level plugin per level, optionally unknown-call / unknown-push handlers with 0-2 plugins of their own, 0-2 global plugins attached AFTER all routes exist via AppendLeft/AppendRight) and 0-2 global plugins on the calling peer; each plugin records a generated subset of 15 stages and at most one plugin vetoes at one stage; 1-6 calls/pushes to handlers at generated nesting levels or to unregistered routes, handler returns or fails; reference model computes the exact per-message hook trace on both peers, the caller-visible status code, whether bytes may be written and whether the handler runs; non-trivial = >=2 plugins on one stage, a veto, or a late attachment with a nested group; distinct by arrangement"
+const ruleC09 = "generated plugin arrangement on the receiving peer (0-4 global-left, 0-4 global-right, a chain of 0-3 nested router groups with 0-2 plugins each, 0-1 handler-level plugin per level, optionally unknown-call / unknown-push handlers with 0-2 plugins of their own, 0-2 global plugins attached AFTER all routes exist via AppendLeft/AppendRight, and in a third of the cases some global plugins removed again with PluginContainer().Remove before the traffic) and 0-2 global plugins on the calling peer; each plugin records a generated subset of 15 stages and at most one plugin vetoes at one stage; 1-6 calls/pushes to handlers at generated nesting levels or to unregistered routes, handler returns or fails; reference model computes the exact per-message hook trace on both peers, the caller-visible status code, whether bytes may be written and whether the handler runs; non-trivial = >=2 plugins on one stage, a veto, or a late attachment with a nested group; distinct by arrangement"
 
 func TestC09PluginOrder(t *testing.T) {
 	rec := vt.NewRec(t, "C09", "order", ruleC09)
@@ -529,7 +553,7 @@ func TestC09PluginOrder(t *testing.T) {
 		for _, p := range c.SrvPlugs {
 			late = late || p.Late
 		}
-		rec.Case(fmt.Sprintf("%+v", c), c.nontrivial(), fmt.Sprintf("depth=%d", c.Depth), fmt.Sprintf("late=%v", late))
+		rec.Case(fmt.Sprintf("%+v", c), c.nontrivial(), fmt.Sprintf("depth=%d", c.Depth), fmt.Sprintf("late=%v", late), fmt.Sprintf("removed=%d", len(c.Removed)))
 		if rec.WantSample() && c.nontrivial() {
 			rec.Sample(c)
 		}
